@@ -239,6 +239,19 @@ func (p *Program) findFunc(key string) *ssa.Function {
 	if f, ok := p.funcs[key]; ok {
 		return f
 	}
+	// anonymous function (closure) of a repository function: <parent key>$N  (go/ssa naming: Parent$N)
+	if k := strings.LastIndex(key, "$"); k >= 0 {
+		var found *ssa.Function
+		if parent := p.findFunc(key[:k]); parent != nil {
+			for _, af := range parent.AnonFuncs {
+				if af.Name() == parent.Name()+"$"+key[k+1:] {
+					found = af
+				}
+			}
+		}
+		p.funcs[key] = found
+		return found
+	}
 	parts := strings.Split(key, ".")
 	var found *ssa.Function
 	for _, sp := range p.spkgs {
